@@ -1,6 +1,7 @@
 import EE.Lemmas.Triple
 import EE.Lemmas.Tie
 import EE.Model.Program
+import EE.Props.C02
 /-! # C08 — names and operators dispatch to the handler and binding last registered
 
 Registries are association lists with the most recent registration first (`HashMap::insert`
@@ -170,5 +171,203 @@ theorem compact_lookup (r : Regs) (n : Name) :
     alookup n r.compact.pre = alookup n r.pre ∧ alookup n r.compact.inf = alookup n r.inf ∧
     alookup n r.compact.post = alookup n r.post ∧ alookup n r.compact.fns = alookup n r.fns :=
   ⟨alookup_dropOlder n _, alookup_dropOlder n _, alookup_dropOlder n _, alookup_dropOlder n _⟩
+
+
+/-! ## a registered infix operator parses with the precedence and associativity it was registered with
+
+`EE.Props.C02.groups_as_written` holds for *every* operator table satisfying `TableOK`. Registering an
+infix operator keeps a table `TableOK` under exactly the conditions the property's quantifier
+states: a positive precedence (any value — adjacent to another level or not), a name that is not
+`?`, `:` or `not` and is not a postfix operator, and — since a precedence level groups one way —
+the associativity of the level it joins. So after any such registration history, every expression
+written canonically for the *new* table (the new operator binding tighter than every operator of a
+lower precedence, looser than every higher one, and at its own level left-to-right or
+right-to-left as registered) parses to exactly the tree it denotes. -/
+section registered
+open EE.Spec EE.Spec.CST
+
+theorem prec_regInfix_self (r : Regs) (n : Name) (c : InfixCfg) : Regs.prec (r.regInfix n c) n = c.prec := by
+  simp [Regs.prec, Regs.regInfix, alookup_cons]
+theorem isRight_regInfix_self (r : Regs) (n : Name) (c : InfixCfg) : Regs.isRight (r.regInfix n c) n = c.right := by
+  simp [Regs.isRight, Regs.regInfix, alookup_cons]
+theorem prec_regInfix_other (r : Regs) (n o : Name) (c : InfixCfg) (h : n ≠ o) : Regs.prec (r.regInfix n c) o = Regs.prec r o := by
+  simp [Regs.prec, Regs.regInfix, alookup_cons, h]
+theorem isRight_regInfix_other (r : Regs) (n o : Name) (c : InfixCfg) (h : n ≠ o) : Regs.isRight (r.regInfix n c) o = Regs.isRight r o := by
+  simp [Regs.isRight, Regs.regInfix, alookup_cons, h]
+theorem isInfix_regInfix_other (r : Regs) (n o : Name) (c : InfixCfg) (h : n ≠ o) : (r.regInfix n c).isInfix o = r.isInfix o := by
+  simp [Regs.isInfix, Regs.regInfix, alookup_cons, h]
+theorem isInfix_regInfix_self (r : Regs) (n : Name) (c : InfixCfg) : (r.regInfix n c).isInfix n = true := by
+  simp [Regs.isInfix, Regs.regInfix, alookup_cons]
+theorem isPostfix_regInfix (r : Regs) (n o : Name) (c : InfixCfg) : (r.regInfix n c).isPostfix o = r.isPostfix o := rfl
+
+/-- Registering (or re-registering) an infix operator keeps the table well-formed. -/
+theorem tableOK_regInfix (r : Regs) (tb : TableOK r) (n : Name) (c : InfixCfg)
+    (hp : 1 ≤ c.prec)
+    (hlevel : ∀ o, o ≠ n → r.isInfix o = true → Regs.prec r o = c.prec → Regs.isRight r o = c.right)
+    (hpost : r.isPostfix n = false) (hq : n ≠ qName) (hcolon : n ≠ colonName) (hnot : n ≠ notName) :
+    TableOK (r.regInfix n c) where
+  pos := by
+    intro m c' hm
+    by_cases h : n = m
+    · subst h; simp [Regs.regInfix, alookup_cons] at hm; subst hm; exact hp
+    · simp [Regs.regInfix, alookup_cons, h] at hm; exact tb.pos m c' hm
+  assoc := by
+    intro o o' ho ho' hpr
+    by_cases h : n = o <;> by_cases h' : n = o'
+    · subst h; subst h'; rfl
+    · subst h
+      rw [prec_regInfix_self, prec_regInfix_other _ _ _ _ h'] at hpr
+      rw [isRight_regInfix_self, isRight_regInfix_other _ _ _ _ h']
+      rw [isInfix_regInfix_other _ _ _ _ h'] at ho'
+      exact (hlevel o' (Ne.symm h') ho' hpr.symm).symm
+    · subst h'
+      rw [prec_regInfix_self, prec_regInfix_other _ _ _ _ h] at hpr
+      rw [isRight_regInfix_self, isRight_regInfix_other _ _ _ _ h]
+      rw [isInfix_regInfix_other _ _ _ _ h] at ho
+      exact hlevel o (Ne.symm h) ho hpr
+    · rw [prec_regInfix_other _ _ _ _ h, prec_regInfix_other _ _ _ _ h'] at hpr
+      rw [isRight_regInfix_other _ _ _ _ h, isRight_regInfix_other _ _ _ _ h']
+      rw [isInfix_regInfix_other _ _ _ _ h] at ho
+      rw [isInfix_regInfix_other _ _ _ _ h'] at ho'
+      exact tb.assoc o o' ho ho' hpr
+  infixNotPostfix := by
+    intro o ho
+    rw [isPostfix_regInfix]
+    by_cases h : n = o
+    · subst h; exact hpost
+    · rw [isInfix_regInfix_other _ _ _ _ h] at ho; exact tb.infixNotPostfix o ho
+  q := by
+    refine ⟨?_, tb.q.2⟩
+    rw [isInfix_regInfix_other _ _ _ _ hq]; exact tb.q.1
+  colon := by
+    refine ⟨?_, tb.colon.2⟩
+    rw [isInfix_regInfix_other _ _ _ _ hcolon]; exact tb.colon.1
+  notOp := by
+    refine ⟨?_, tb.notOp.2⟩
+    rw [isInfix_regInfix_other _ _ _ _ hnot]; exact tb.notOp.1
+
+/-- Registering a prefix operator or a function never affects how infix operators group. -/
+theorem tableOK_regPrefix (r : Regs) (tb : TableOK r) (n : Name) (h : HandlerId) : TableOK (r.regPrefix n h) :=
+  ⟨tb.pos, tb.assoc, tb.infixNotPostfix, tb.q, tb.colon, tb.notOp⟩
+theorem tableOK_regFn (r : Regs) (tb : TableOK r) (n : Name) (h : HandlerId) : TableOK (r.regFn n h) :=
+  ⟨tb.pos, tb.assoc, tb.infixNotPostfix, tb.q, tb.colon, tb.notOp⟩
+
+/-- **After the registration, expressions group by the registered precedence and associativity**:
+every expression written canonically for the table that now contains `n` with `c` parses to the
+tree it denotes — `n` relative to every other operator included. -/
+theorem registered_infix_groups_as_registered (r : Regs) (tb : TableOK r) (n : Name) (c : InfixCfg)
+    (hp : 1 ≤ c.prec)
+    (hlevel : ∀ o, o ≠ n → r.isInfix o = true → Regs.prec r o = c.prec → Regs.isRight r o = c.right)
+    (hpost : r.isPostfix n = false) (hq : n ≠ qName) (hcolon : n ≠ colonName) (hnot : n ≠ notName)
+    (lim : Nat) (e : CST) (hc : Canon (r.regInfix n c) e) (hf : EE.Props.C02.Fits lim e) :
+    parseTokens (r.regInfix n c) lim e.flatten = .ok e.strip :=
+  EE.Props.C02.groups_as_written _ (tableOK_regInfix r tb n c hp hlevel hpost hq hcolon hnot) lim e hc hf
+
+theorem atom_height (a : Atom) : a.ast.height = 1 := by cases a <;> rfl
+
+/-- hypotheses under which `n` may be registered with `c` (the quantifier of the property: any positive
+precedence; the level's associativity; not `?`, `:`, `not`; not a postfix operator) -/
+structure Registrable (r : Regs) (n : Name) (c : InfixCfg) : Prop where
+  pos : 1 ≤ c.prec
+  level : ∀ o, o ≠ n → r.isInfix o = true → Regs.prec r o = c.prec → Regs.isRight r o = c.right
+  notPostfix : r.isPostfix n = false
+  notQ : n ≠ qName
+  notColon : n ≠ colonName
+  notNot : n ≠ notName
+
+theorem Registrable.tableOK {r : Regs} {n : Name} {c : InfixCfg} (tb : TableOK r) (h : Registrable r n c) :
+    TableOK (r.regInfix n c) :=
+  tableOK_regInfix r tb n c h.pos h.level h.notPostfix h.notQ h.notColon h.notNot
+
+/-- The token sequence `a o b n d` after registering `n` at a precedence *above* that of `o`
+(by any amount: one step is enough): `n` takes `b` — the tree is `o(a, n(b, d))`. -/
+theorem registered_above_binds_first (r : Regs) (tb : TableOK r) (n o : Name) (c : InfixCfg) (hr : Registrable r n c)
+    (ho : r.isInfix o = true) (hne : n ≠ o) (hlt : Regs.prec r o < c.prec) (a b d : Atom) (lim : Nat) (hl : 3 ≤ lim) :
+    parseTokens (r.regInfix n c) lim [a.tok, .op o, b.tok, .op n, d.tok] =
+      .ok (.binary o a.ast (.binary n b.ast d.ast)) := by
+  have h := EE.Props.C02.groups_as_written _ (hr.tableOK tb) lim
+    (CST.bin false o (.atom a) (.bin false n (.atom b) (.atom d))) ?_ ?_
+  · simpa [CST.flatten, CST.strip, opToks, wrapNot] using h
+  · simp only [Canon, CST.root?, CST.isTern, okLeft, okRight, isInfix_regInfix_self, isInfix_regInfix_other _ _ _ _ hne, ho,
+      prec_regInfix_self, prec_regInfix_other _ _ _ _ hne, true_and, and_true, reduceCtorEq, false_implies, implies_true,
+      Option.some.injEq, forall_eq']
+    exact Or.inl hlt
+  · refine ⟨?_, ?_⟩
+    · simp only [CST.nest]; omega
+    · simp [CST.strip, wrapNot, AST.height, atom_height]; omega
+
+/-- … and registered at a precedence *below* that of `o`, `o` binds first: `n(o(a, b), d)`. -/
+theorem registered_below_binds_last (r : Regs) (tb : TableOK r) (n o : Name) (c : InfixCfg) (hr : Registrable r n c)
+    (ho : r.isInfix o = true) (hne : n ≠ o) (hlt : c.prec < Regs.prec r o) (a b d : Atom) (lim : Nat) (hl : 3 ≤ lim) :
+    parseTokens (r.regInfix n c) lim [a.tok, .op o, b.tok, .op n, d.tok] =
+      .ok (.binary n (.binary o a.ast b.ast) d.ast) := by
+  have h := EE.Props.C02.groups_as_written _ (hr.tableOK tb) lim
+    (CST.bin false n (.bin false o (.atom a) (.atom b)) (.atom d)) ?_ ?_
+  · simpa [CST.flatten, CST.strip, opToks, wrapNot] using h
+  · simp only [Canon, CST.root?, CST.isTern, okLeft, okRight, isInfix_regInfix_self, isInfix_regInfix_other _ _ _ _ hne, ho,
+      prec_regInfix_self, prec_regInfix_other _ _ _ _ hne, true_and, and_true, reduceCtorEq, false_implies, implies_true,
+      Option.some.injEq, forall_eq']
+    exact Or.inl hlt
+  · refine ⟨?_, ?_⟩
+    · simp only [CST.nest]; omega
+    · simp [CST.strip, wrapNot, AST.height, atom_height]; omega
+
+/-- A run of the registered operator itself groups by the registered associativity. -/
+theorem registered_run_groups_by_associativity (r : Regs) (tb : TableOK r) (n : Name) (c : InfixCfg) (hr : Registrable r n c)
+    (a b d : Atom) (lim : Nat) (hl : 3 ≤ lim) :
+    parseTokens (r.regInfix n c) lim [a.tok, .op n, b.tok, .op n, d.tok] =
+      .ok (if c.right then .binary n a.ast (.binary n b.ast d.ast) else .binary n (.binary n a.ast b.ast) d.ast) := by
+  cases hc : c.right
+  · have h := EE.Props.C02.groups_as_written _ (hr.tableOK tb) lim
+      (CST.bin false n (.bin false n (.atom a) (.atom b)) (.atom d)) ?_ ?_
+    · simpa [CST.flatten, CST.strip, opToks, wrapNot] using h
+    · simp only [Canon, CST.root?, CST.isTern, okLeft, okRight, isInfix_regInfix_self, prec_regInfix_self, isRight_regInfix_self,
+        true_and, and_true, reduceCtorEq, false_implies, implies_true, Option.some.injEq, forall_eq']
+      exact Or.inr hc
+    · refine ⟨?_, ?_⟩
+      · simp only [CST.nest]; omega
+      · simp [CST.strip, wrapNot, AST.height, atom_height]; omega
+  · have h := EE.Props.C02.groups_as_written _ (hr.tableOK tb) lim
+      (CST.bin false n (.atom a) (.bin false n (.atom b) (.atom d))) ?_ ?_
+    · simpa [CST.flatten, CST.strip, opToks, wrapNot] using h
+    · simp only [Canon, CST.root?, CST.isTern, okLeft, okRight, isInfix_regInfix_self, prec_regInfix_self, isRight_regInfix_self,
+        true_and, and_true, reduceCtorEq, false_implies, implies_true, Option.some.injEq, forall_eq']
+      exact Or.inr hc
+    · refine ⟨?_, ?_⟩
+      · simp only [CST.nest]; omega
+      · simp [CST.strip, wrapNot, AST.height, atom_height]; omega
+
+/-- Non-vacuity, and the adjacent-precedence case of the property spelled out: `cat` may be registered on the
+built-in table at 111 — one step above `+` (110) — and then `a + b cat d` is `a + (b cat d)`, while at
+109 it is `(a + b) cat d`. -/
+theorem builtin_registrable_at (n : Name) (c : InfixCfg) (hp : 1 ≤ c.prec)
+    (hlevel : ∀ x ∈ Regs.builtin.inf, x.2.prec = c.prec → x.2.right = c.right)
+    (hpost : Regs.builtin.isPostfix n = false) (hq : n ≠ qName) (hcolon : n ≠ colonName) (hnot : n ≠ notName) :
+    Registrable Regs.builtin n c where
+  pos := hp
+  level := by
+    intro o _ ho hpr
+    obtain ⟨c', hm, hp', hr'⟩ := EE.Props.C02.isInfix_mem ho
+    rw [hr']; exact hlevel _ hm (by rw [← hp', hpr])
+  notPostfix := hpost
+  notQ := hq
+  notColon := hcolon
+  notNot := hnot
+
+example (h : HandlerId) (a b d : Atom) :
+    parseTokens (Regs.builtin.regInfix ['c', 'a', 't'] ⟨111, false, false, h⟩) maxDepth [a.tok, .op ['+'], b.tok, .op ['c', 'a', 't'], d.tok] =
+      .ok (.binary ['+'] a.ast (.binary ['c', 'a', 't'] b.ast d.ast)) :=
+  registered_above_binds_first _ EE.Props.C02.builtin_table_ok _ _ _
+    (builtin_registrable_at _ _ (by (try dsimp only); decide) (by (try dsimp only); decide) (by (try dsimp only); decide) (by (try dsimp only); decide) (by (try dsimp only); decide) (by (try dsimp only); decide))
+    (by (try dsimp only); decide) (by (try dsimp only); decide) (by (try dsimp only); decide) a b d _ (by (try dsimp only); decide)
+
+example (h : HandlerId) (a b d : Atom) :
+    parseTokens (Regs.builtin.regInfix ['c', 'a', 't'] ⟨109, false, true, h⟩) maxDepth [a.tok, .op ['+'], b.tok, .op ['c', 'a', 't'], d.tok] =
+      .ok (.binary ['c', 'a', 't'] (.binary ['+'] a.ast b.ast) d.ast) :=
+  registered_below_binds_last _ EE.Props.C02.builtin_table_ok _ _ _
+    (builtin_registrable_at _ _ (by (try dsimp only); decide) (by (try dsimp only); decide) (by (try dsimp only); decide) (by (try dsimp only); decide) (by (try dsimp only); decide) (by (try dsimp only); decide))
+    (by (try dsimp only); decide) (by (try dsimp only); decide) (by (try dsimp only); decide) a b d _ (by (try dsimp only); decide)
+
+end registered
 
 end EE.Props.C08
